@@ -815,8 +815,66 @@ theorem shared_respOpt_leaks :
 
 end CacheLife
 
+/-! ### The header fields of the client's OPT (VERSION, extended-rcode byte) -/
+
+/-- "The client's query had one": an OPT is an OPT whatever it says about itself. For a client OPT with **any** VERSION,
+extended-rcode byte, UDP size and options (`o` is arbitrary) the reply carries exactly one OPT, without options, with that
+OPT's DO bit - under the hypotheses of `reply_opt_iff`. -/
+theorem reply_opt_any_header (entry : Ctx → Ctx × Bool) (q : Msg) (o : Opt) (hv : validQuery q = true)
+    (hq : q.extra = [.opt o])
+    (hkeep : (entry (newContext q)).1.respOpt = (newContext q).respOpt)
+    (hstrip : ∀ r, (entry (newContext q)).1.resp = some r → countOpt r.extra = 0)
+    (truncate : Msg → Nat → Msg) :
+    ∃ r, reply entry truncate false q = some r ∧ countOpt r.extra = 1 ∧
+      (∀ o', RR.opt o' ∈ r.extra → o'.options = [] ∧ o'.doBit = o.doBit) := by
+  obtain ⟨r, hr, hc, ho⟩ := reply_opt_iff entry q hv hkeep hstrip truncate
+  have h1 : countOpt q.extra = 1 := by rw [hq]; rfl
+  refine ⟨r, hr, by simpa [h1] using hc, ?_⟩
+  intro o' h'
+  obtain ⟨hn, co, hco, hdo⟩ := ho o' h'
+  rw [hq] at hco
+  simp at hco
+  subst hco
+  exact ⟨hn, hdo⟩
+
+/-- `NewContext` with a further condition on the client's OPT in front of the creation of the response OPT (the code:
+`if ctx.clientOpt != nil { ctx.respOpt = newOpt() ... }`, no further condition). -/
+def newContextCond (cond : Opt → Bool) (q : Msg) : Ctx :=
+  let c := newContext q
+  { c with respOpt := match c.clientOpt with
+      | some co => if cond co then c.respOpt else none
+      | none => c.respOpt }
+
+/-- The regenerated count of such further conditions in `NewContext` (`Gen.Facts.c15RespOptExtraConds`); what one tests
+is not known to the model, so with any of them no client OPT is taken to pass. -/
+def genRespOptCond (_ : Opt) : Bool := Gen.Facts.c15RespOptExtraConds == some 0
+
+/-- with the regenerated fact `NewContext` is the `newContext` all theorems above are about -/
+theorem genContext_eq (q : Msg) : newContextCond genRespOptCond q = newContext q := by
+  have hc : ∀ o, genRespOptCond o = true := fun _ => by unfold genRespOptCond; decide
+  unfold newContextCond
+  simp only [hc, if_true]
+  generalize newContext q = c
+  cases c with
+  | mk cq co resp ro uo => cases co <;> rfl
+
+/-- Why `c15RespOptExtraConds` is needed: were the response OPT created for clients announcing EDNS version 0 only, a
+client whose OPT says VERSION 1 (DO set) would get a reply without any OPT - REFUSED, SERVFAIL or an answer alike - while
+the code as it is hands it one OPT with DO set. -/
+def verQ : Msg := { id := 6, question := [⟨[97], 1, 1⟩], extra := [.opt { udpSize := 1232, doBit := true, version := 1, options := [] }] }
+def verGate (o : Opt) : Bool := o.version == 0
+
+theorem version_gate_loses_opt :
+    (newContextCond verGate verQ).respOpt = none ∧
+    countOpt (finish (fun m _ => m) false (newContextCond verGate verQ) (base (newContextCond verGate verQ) false)).extra = 0 ∧
+    countOpt (finish (fun m _ => m) false (newContextCond verGate verQ) (base (newContextCond verGate verQ) true)).extra = 0 ∧
+    (newContext verQ).respOpt = some { freshOpt with doBit := true } ∧
+    (reply (fun c => (c, false)) (fun m _ => m) false verQ).map (fun r => countOpt r.extra) = some 1 := by
+  decide
+
 /-! ### Guards over the regenerated facts -/
 theorem facts_guard :
+    Gen.Facts.c15RespOptExtraConds = some 0 ∧
     Gen.Facts.c15NewContextSwapsOpt = some true ∧ Gen.Facts.c15SetResponsePopsOpt = some true ∧
     Gen.Facts.c15RespOptMirrorsDo = some true ∧ Gen.Facts.c15FreshOptShape = some true ∧
     Gen.Facts.c15CopyNoOptDropsOpt = some true ∧ Gen.Facts.c15OnlyEcsForwardsBack = some true ∧
